@@ -70,6 +70,8 @@ def _not3(v):
 
 
 class ActionSim:
+    idx = None          # set by run(): the program index (module-level names)
+
     def __init__(self, act: Action, scen: Dict[str, bool]):
         self.act = act
         self.tok = act.tok_param()
@@ -149,6 +151,17 @@ class ActionSim:
                 out.append((st, path))
         return out
 
+    def const_members(self, e: ast.AST) -> Optional[List[object]]:
+        """the literal members of a tuple/list/set display or of a module-level name bound to one"""
+        if isinstance(e, ast.Name) and self.idx is not None:
+            sym = self.idx.resolve(self.act.module, e.id)
+            e = sym.node if sym is not None and sym.kind == 'assign' else e
+        if isinstance(e, (ast.Tuple, ast.List, ast.Set)) and all(isinstance(x, ast.Constant) for x in e.elts):
+            return [x.value for x in e.elts]
+        if isinstance(e, ast.Dict) and all(isinstance(x, ast.Constant) for x in e.keys):
+            return [x.value for x in e.keys]
+        return None
+
     def stmt(self, s: ast.AST, st):
         if isinstance(s, ast.Assign) and len(s.targets) == 1:
             t, v = s.targets[0], s.value
@@ -184,12 +197,29 @@ class ActionSim:
                     d['src'] = 'trailing'
                 # settings without a comment (or absent) contribute nothing to the comment key
             else:
+                # update((K, V) for ... [if K in CONSTANTS]): keys that are literals (or range over a literal tuple) other than the comment key contribute nothing
+                keys = None
+                if isinstance(arg, (ast.GeneratorExp, ast.ListComp)) and len(arg.generators) == 1 and isinstance(arg.elt, ast.Tuple) and len(arg.elt.elts) == 2:
+                    k = arg.elt.elts[0]
+                    if isinstance(k, ast.Constant):
+                        keys = [k.value]
+                    elif isinstance(k, ast.Name):
+                        for c in arg.generators[0].ifs:
+                            for cmp_ in ast.walk(c):
+                                if isinstance(cmp_, ast.Compare) and len(cmp_.ops) == 1 and isinstance(cmp_.ops[0], ast.In) and isinstance(cmp_.left, ast.Name) \
+                                        and cmp_.left.id == k.id:
+                                    keys = self.const_members(cmp_.comparators[0])
+                elif isinstance(arg, ast.Dict) and all(isinstance(k, ast.Constant) for k in arg.keys):
+                    keys = [k.value for k in arg.keys]
+                if keys is not None and TRAILING not in keys:
+                    return
                 d['has'] = None
-                d['src'] = None
+                d['src'] = 'other'
 
 
 def run(ctx, col: Collector):
     idx = ctx.idx
+    ActionSim.idx = idx
     gm = acquire_grammar(ctx, col, 'C14-grammar')
     pm = gt.parent_map(gm.all_roots())
 
@@ -338,7 +368,7 @@ def run(ctx, col: Collector):
                 bad = None
                 for st, path in finals:
                     # the dict that carries the comment: any tracked dict; all must agree
-                    srcs = {d['src'] if d['has'] else None for d in st['dicts'].values()} or {None}
+                    srcs = {d['src'] if d['has'] else ('other' if d['has'] is None and d['src'] == 'other' else None) for d in st['dicts'].values()} or {None}
                     if want not in srcs or len(srcs - {want, None}) > 0 or (srcs == {None}):
                         bad = (srcs, path)
                         break
